@@ -36,7 +36,7 @@ makes Jedi use ~500mb of memory. Since we might want a bit more than those few
 libraries, we just increase it a bit.
 """
 
-_PICKLE_VERSION = 33
+_PICKLE_VERSION = 34
 """
 Version number (integer) for file system cache.
 
@@ -140,11 +140,19 @@ def _load_from_file_system(hashed_grammar, path, p_time, cache_path=None):
             return None
 
         with open(cache_path, 'rb') as f:
-            gc.disable()
-            try:
-                module_cache_item = pickle.load(f)
-            finally:
-                gc.enable()
+            data = f.read()
+        digest_size = hashlib.sha256().digest_size
+        if hashlib.sha256(data[digest_size:]).digest() != data[:digest_size]:
+            # Never unpickle a file that is not what was written (torn or
+            # corrupt files can do anything to the process when unpickled).
+            LOG.debug('pickle is corrupt: %s', path)
+            return None
+
+        gc.disable()
+        try:
+            module_cache_item = pickle.loads(data[digest_size:])
+        finally:
+            gc.enable()
 
         if p_time > module_cache_item.change_time:
             # The file was modified after it had been read for this entry.
@@ -223,8 +231,11 @@ def try_to_save_module(hashed_grammar, file_io, module, lines, pickling=True, ca
 
 
 def _save_to_file_system(hashed_grammar, path, item, cache_path=None):
+    data = pickle.dumps(item, pickle.HIGHEST_PROTOCOL)
     with open(_get_hashed_path(hashed_grammar, path, cache_path=cache_path), 'wb') as f:
-        pickle.dump(item, f, pickle.HIGHEST_PROTOCOL)
+        # The checksum is verified before the file is unpickled again.
+        f.write(hashlib.sha256(data).digest())
+        f.write(data)
 
 
 def clear_cache(cache_path=None):
